@@ -117,6 +117,22 @@ def check_case(prog, env, pid, want_schedules=True, forms=None, sched_cap=48):
                     viols.append((kind, f'requested {req}: {msg}', {'requested': req}))
         if pid == 'C05' and rab.final_inputs == rba.final_inputs and rab.canon() != rba.canon():
             viols.append(('request-order-dependent', f'requested [a, b] vs [b, a]: {_brief(rab)} vs {_brief(rba)}', None))
+    if pid in ('C01', 'C04') :
+        # specifically requested optional lines: Solver.solve(forms, field_names)
+        for l in prog:
+            if l['form'] == 'a' and not l['req']:
+                line = f"a.{l['name']}"
+                ans = world.scripted_answer(env['answers'])
+                rq = world.run_solve(forms, ['a'], env['file'], answer=ans, schedule=world.Schedule('natural'), field_names=[line])
+                cnt['executions'] += 1
+                if pid == 'C01':
+                    refq = refeval.Ref(forms, ['a'], rq.final_inputs, requested_lines=[line]).run()
+                    for kind, msg in refeval.compare(rq, refq):
+                        viols.append((kind, f'requested line {line}: {msg}', {'field_names': [line]}))
+                else:
+                    errs, closure = monitors.c04(forms, ['a'], rq, requested_lines=[line])
+                    for kind, msg in errs:
+                        viols.append((kind, f'requested line {line}: {msg}', {'field_names': [line]}))
     if pid == 'C01' and r0.exc is None:
         # histories on one store: solve; delete one supplied input from the SAME store object; solve again (no prompt).
         # The second solve must be the fixed point of the reduced inputs (nothing remembered from the first).
